@@ -45,7 +45,7 @@ func (gn *generator) leafRune() *Expr {
 // syntactic nullability used while generating (nonterminal bodies are not known yet: assume nullable)
 func synNullable(e *Expr) bool {
 	switch e.Op {
-	case OpRune, OpKw:
+	case OpRune, OpKw, OpStr:
 		return false
 	case OpEmpty, OpOpt, OpMany, OpSepBy, OpNT, OpEnd, OpMark:
 		return true
@@ -358,6 +358,32 @@ func HiddenLRWith(r *rand.Rand, marks bool) *Grammar {
 	return g
 }
 
+// StrLiterals are the double-quoted literals the OpStr leaves are sampled from: plain ones, and ones whose unquoted
+// form is shorter than their raw form (escapes), which is where an unquoting parser has work to do
+var StrLiterals = []string{`"a"`, `"ab"`, `""`, `"a\nb"`, `"\"q\""`, `"x\ty"`, `"\\"`, `"\u00e9b"`, `"b\n\n"`} // (no \x escapes: above \x7f the library decodes them as runes, strconv as bytes - C08's grey set)
+
+// StrGrammar generates grammars over string literals and punctuation in which a literal is read more than once at one
+// position (alternatives that share the literal as a prefix, left recursion with the literal as base case, lists)
+func StrGrammar(r *rand.Rand) *Grammar {
+	g := New(`ab"\=:,n`, 2)
+	str := func() *Expr { return g.Mk(OpStr) }
+	p := func() *Expr { return g.Rune("=:,"[r.Intn(3)]) }
+	switch r.Intn(3) {
+	case 0: // pairs: STR '=' STR | STR ':' STR | STR
+		g.NTs[1] = g.Mk(OpAny, g.Mk(OpSeqOf, str(), g.Rune('='), str()), g.Mk(OpSeqOf, str(), g.Rune(':'), str()), str())
+	case 1: // concatenation, left recursive with the literal as its base case
+		g.NTs[1] = g.Mk(OpAny, g.Mk(OpSeqOf, g.Ref(1), p(), str()), str())
+	default:
+		g.NTs[1] = g.Mk(OpChoice, g.Mk(OpSeqOf, str(), p(), g.Ref(1)), g.Mk(OpSeqOf, str(), g.Mk(OpOpt, p())))
+	}
+	if r.Intn(2) == 0 {
+		g.NTs[0] = g.Mk(OpSepBy1, g.Ref(1), g.Rune(','))
+	} else {
+		g.NTs[0] = g.Mk(OpAny, g.Mk(OpSeqOf, g.Ref(1), g.Rune(','), g.Ref(0)), g.Ref(1))
+	}
+	return g
+}
+
 // TrimSeq generates token-level grammars in which trimming meets optional and alternative tokens: a sequence of
 // elements, each a rune, an optional rune, a left-trimmed (any mode) or right-trimmed (never-failing mode) one, or an
 // Any of differently trimmed optional / plain alternatives - so that one result list holds empty matches and tokens
@@ -452,6 +478,9 @@ func (g *Grammar) Sample(r *rand.Rand, e *Expr, depth int, out *[]byte, maxLen i
 		return true
 	case OpKw:
 		*out = append(*out, e.S...)
+		return true
+	case OpStr:
+		*out = append(*out, StrLiterals[r.Intn(len(StrLiterals))]...)
 		return true
 	case OpEmpty, OpEnd, OpMark:
 		return true
